@@ -172,7 +172,9 @@ class Ledger:
                 # an over-long report loses its last byte when the "not going to try again" sentence is appended: unspecified, both accepted
                 alt = text[1:][:REPORTMAX - 3] + DYING if len(text) - 1 > REPORTMAX - 3 else None
                 t = t + DYING
-            self.bounces_owed.setdefault(cmd.n, []).append({"chan": cmd.chan, "addr": cmd.recip, "text": t, "alt": alt, "waived": False, "noticed": False})
+            self.bounces_owed.setdefault(cmd.n, []).append({"chan": cmd.chan, "addr": cmd.recip, "text": t, "alt": alt, "waived": False, "noticed": False,
+                                                             # the tag is taken off by the table in force when the failure is recorded
+                                                             "shown": strip_prepend(cmd.recip, self.vdoms)})
 
     def note_term(self):
         """TERM: passes that could not finish reading their list (channel saturated ever since their last command) are abandoned"""
@@ -419,7 +421,7 @@ class Ledger:
         pars = [p.strip(b"\n") + b"\n" for p in pars]
         exp = []
         for o in owed:
-            shown = strip_prepend(o["addr"], self.vdoms).replace(b"\n", b"_")
+            shown = o.get("shown", strip_prepend(o["addr"], self.vdoms)).replace(b"\n", b"_")
             exp.append((b"<" + shown + b">:\n", o))
         recip_pars = [p for p in pars if p.startswith(b"<")]
         if len(pars) != len(exp):
@@ -890,6 +892,8 @@ def run_scenario(tree, wpath, sc, maxq=None, world=None):
             elif act[0] == "hup":
                 used["hup"] += 1
                 apply_hup(sc, w)
+                if "virtualdomains" in sc.get("hup_controls", {}):
+                    led.vdoms = parse_vdoms(sc["hup_controls"]["virtualdomains"])      # re-read before the daemon looks at any later report
                 res.classes.add("hup")
                 # HUP only makes the daemon re-read two control files: the instant at which it planned to wake must not move later
                 if 0 < info["req_timeout"] < 86400:
